@@ -42,7 +42,7 @@ def cases(tier, rng):
         nodata = rng.choice([-9999, -1, 7, 0])
         pn = rng.choice([0, 0, 0.15])
         data = [nodata if rng.random() < pn else rng.randint(-3, 9) for _ in range(n)]
-        api = rng.choice(["accu_up_int", "accu_up_float", "accu_down_int", "uparea_cell", "vector_uparea", "kernel_uparea"])
+        api = rng.choice(["accu_up_int", "accu_up_float", "accu_down_int", "uparea_cell", "vector_uparea", "kernel_uparea", "uparea_after_add_pits"])
         sq = nets.topo_order(ds)
         if api.startswith("accu"):
             k = 402 if "down" in api else 401
@@ -51,6 +51,13 @@ def cases(tier, rng):
             xres, yres = rng.choice([(1, -1), (2, -3), (-2, 5), (30, -30)])
             yield {"k": 403, "args": [ds, nets.topo_order(ds, rng), [abs(xres * yres)] * n, [-9999]],
                    "call": {"api": api, "xres": xres, "yres": yres}, "group": f"rand-{api}"}
+        elif api == "uparea_after_add_pits":
+            nonpit = [i for i in range(n) if ds[i] >= 0 and ds[i] != i]
+            if not nonpit:
+                continue
+            newpit = rng.choice(nonpit)
+            ds2 = list(ds); ds2[newpit] = newpit
+            yield {"k": 404, "args": [ds2, nets.topo_order(ds2), [1] * n], "call": {"api": api, "ds0": ds, "newpit": newpit}, "group": f"rand-{api}"}
         else:
             yield {"k": 404, "args": [ds, sq, [1] * n], "call": {"api": api}, "group": f"rand-{api}"}
 
@@ -88,6 +95,13 @@ def impl(case):
         if st == "ok" and (v.shape != (1, n) or v.dtype != dt):
             return [[-3], [str(v.dtype)]]
         return outl(st, v)
+    if api == "uparea_after_add_pits":
+        flw = make_raster(call["ds0"])
+        call_impl(flw.upstream_area, "cell")            # a first query on the old network
+        st, _ = call_impl(flw.add_pits, idxs=np.array([call["newpit"]]))
+        if st != "ok":
+            return [[-2], [st]]
+        return outl(*call_impl(flw.upstream_area, "cell"))
     if api == "uparea_cell":
         flw = make_raster(ds)
         return outl(*call_impl(flw.upstream_area, "cell"))
